@@ -46,7 +46,7 @@ type COp struct {
 
 type C14Spec struct {
 	Knob    string      `json:"knob,omitempty"` // "zero": the program has set MaxTrials = 0 before the clients start
-	Mode    string      `json:"mode"` // controlled | race
+	Mode    string      `json:"mode"`           // controlled | race
 	Shared  []PoolEntry `json:"shared"`
 	Clients [][]COp     `json:"clients"`
 	Sched   SchedSpec   `json:"sched"`
@@ -112,8 +112,8 @@ func genC14(r *Rng, seed uint64, mode string) *C14Spec {
 func init() {
 	register(&CheckDef{
 		ID: "C14", Level: "exploration",
-		Technique: "deterministic simulation of goroutine interleaving: seeded cooperative scheduler releasing one client goroutine at a time at hook yield points (isolation-equality oracle), plus the same episode shapes run unsynchronised under the Go race detector in a separate -race binary",
-		Rule:      "case = one API call by one client inside an interleaved episode (controlled mode) or one unsynchronised episode (race mode); distinct_nontrivial = distinct release sequences (hash of the schedule) with at least one context switch, plus race-mode episodes",
+		Technique:   "deterministic simulation of goroutine interleaving: seeded cooperative scheduler releasing one client goroutine at a time at hook yield points (isolation-equality oracle), plus the same episode shapes run unsynchronised under the Go race detector in a separate -race binary",
+		Rule:        "case = one API call by one client inside an interleaved episode (controlled mode) or one unsynchronised episode (race mode); distinct_nontrivial = distinct release sequences (hash of the schedule) with at least one context switch, plus race-mode episodes",
 		Assumptions: []string{"controlled interleavings are decided only at the hook yield points (which include every random draw); interference that needs a preemption between two yield points is left to race mode", "race mode is repeatable (same seed, same operations on the same shared values, hence the same unsynchronised access pairs) but not bit-deterministic: the OS decides the real interleaving", "race mode uses the real OS reader and no hooks, because a shared tape or a baton would order the clients and hide races"},
 		Episodes:    map[string]int{"quick": 6000, "thorough": 480000},
 		TwiceEvery:  4,
